@@ -49,7 +49,9 @@ Record env := { redact : bool;             (* RedactionPolicy() == RedactionPoli
    scheme:path#display after Normalize/Validate, fmt = URN.Format()).  Non-identifying: scheme, the channel
    affinity of the ?channel= query, the country gocommon derives from a tel path. *)
 Record urn := { u_scheme : string; u_path : string; u_display : string;
-                u_affinity : string;       (* channel UUID of the query, "" if none *)
+                u_affinity : string;       (* UUID of ContactURN.Channel(), the RESOLVED channel pointer the code tests
+                                              (urn.Channel() == nil / == channel, GetForURN); "" if nil — also for a
+                                              ?channel= query naming a channel that is not in the assets *)
                 u_country : string;        (* i18n.DeriveCountryFromTel(path), "" if none *)
                 u_plain : string;          (* string(withoutQuery(false)) *)
                 u_fmt : string }.          (* URN().Format() *)
@@ -472,6 +474,40 @@ Definition model_value_builders : list (string * bool) :=
     ("flows.URNList.ToXValue", true);
     ("runs.Path.ToXValue", false);
     ("runs.legacyExtra.ToXValue", false) ].
+
+(* Who reads the contact's URNs during a run.  Functions under flows/actions, flows/modifiers, flows/routers whose body
+   calls a URN-touching method of Contact / ContactURN / URNList / ChannelAssets / sessionEnvironment, with the methods
+   called, and what that means for the session STATE the expression context is built from:
+     URNsModifier.Apply      add_contact_urn (and the host-side urns modifier): add_urn / remove_urn above — state
+                             depends on an identity comparison with the held URNs (listed finding)
+     ChannelModifier.Apply   set_contact_channel: update_preferred_channel above — affinities and order only
+     channelOf               resolves the ?channel= of the ADDED URN (a function of the candidate, not of held URNs)
+     ReevaluateGroups        query-based groups: queries are parsed with the assets' environment; under the policy a
+                             query with a URN value is rejected, existence checks depend on schemes only
+     SendMsg / RequestOptIn  ResolveDestinations: picks URN + channel for the message EVENT (known sink: channel choice);
+                             DefaultLocale for the template translation (known sink: country)
+     TransferAirtime.transfer  recipient / sender of the airtime EVENT; no state change beyond the result's fixed texts
+     currentLocale, resolveRecipients, HasPhone, DialWait.Begin   read the merged environment's country (known sink)
+   A new action that compares or reads URNs shows up as a new or changed row and re-opens the obligation. *)
+Definition model_urn_readers : list (string * string) :=
+  [ ("actions.RequestOptInAction.Execute", "Contact.ResolveDestinations ContactURN.URN");
+    ("actions.SendMsgAction.Execute", "Contact.ResolveDestinations ContactURN.URN sessionEnvironment.DefaultLocale");
+    ("actions.TransferAirtimeAction.transfer", "Contact.PreferredChannel Contact.URNs ContactURN.URN URNList.WithScheme");
+    ("actions.currentLocale", "sessionEnvironment.DefaultCountry");
+    ("actions.otherContactsAction.resolveRecipients", "sessionEnvironment.DefaultCountry");
+    ("cases.HasPhone", "sessionEnvironment.DefaultCountry");
+    ("modifiers.ChannelModifier.Apply", "Contact.URNs Contact.UpdatePreferredChannel URNList.RawURNs");
+    ("modifiers.ReevaluateGroups", "Contact.ReevaluateQueryBasedGroups");
+    ("modifiers.URNsModifier.Apply", "Contact.AddURN Contact.ClearURNs Contact.RemoveURN Contact.URNs URNList.RawURNs");
+    ("modifiers.channelOf", "ContactURN.Channel");
+    ("waits.DialWait.Begin", "sessionEnvironment.DefaultCountry") ].
+
+Fixpoint pairs_eqb (a b : list (string * string)) : bool :=
+  match a, b with
+  | [], [] => true
+  | (k, x) :: a', (k', y) :: b' => String.eqb k k' && String.eqb x y && pairs_eqb a' b'
+  | _, _ => false
+  end.
 
 Fixpoint rows_eqb (a b : list (string * bool)) : bool :=
   match a, b with
